@@ -327,7 +327,7 @@ def check(case: dict[str, Any]) -> list[tuple[str, str]]:
                 elif tail and written and written[-1][1]:
                     out.append((f"C19/{kind}/write-framing/unterminated-line", f"stream ends with {tail[:60]!r} after a successful write"))
 
-    status, val, _ = run_virtual(run, max_virtual=1e6)
+    status, val, _ = run_virtual(run, max_virtual=1e6, cpu_budget=5.0)
     if status == "exc":
         return [(f"C19/{kind}/harness-exc", f"{type(val).__name__}: {val}")]
     if status != "ok":
@@ -401,7 +401,7 @@ def _check_server(case: dict[str, Any]) -> list[tuple[str, str]]:
             state["ended"] = True
             state["end_exc"] = repr(e)
 
-    status, val, _ = run_virtual(run, max_virtual=1e6)
+    status, val, _ = run_virtual(run, max_virtual=1e6, cpu_budget=5.0)
     if status != "ok":
         return [("C19/server/harness", f"{status} {val!r}")]
     if seen != msgs:
@@ -465,7 +465,7 @@ def _check_server_multi(case: dict[str, Any]) -> list[tuple[str, str]]:
         for t in tasks:
             t.cancel()
 
-    status, val, _ = run_virtual(run, max_virtual=1e6)
+    status, val, _ = run_virtual(run, max_virtual=1e6, cpu_budget=5.0)
     if status != "ok":
         return [("C19/server/harness", f"{status} {val!r}")]
     out: list[tuple[str, str]] = []
@@ -537,6 +537,26 @@ def check_real(case: dict[str, Any]) -> list[tuple[str, str]]:
                 if not belongs(req, rep):
                     out.append((f"C19/real/{scheme}/foreign-reply", f"request of {n} bytes starting {req[:4].hex()}: reply {rep.hex()[:40]}"))
                     return
+            # a request the ECU does not answer (TesterPresent with the suppress bit) produces no line at all - in particular not an
+            # empty one, which the client could not tell from end-of-stream; the next reply read is the one to the next request
+            await tr.write(b"\x3e\x80", timeout=5)
+            await tr.write(b"\x3e\x00", timeout=5)
+            try:
+                rep = await tr.read(timeout=5)
+            except Exception as e:  # noqa: BLE001
+                rep = f"{type(e).__name__}: {e}".encode()
+            if len(rep) == 3 and rep[:2] == b"\x7f\x3e":
+                # this model does not offer TesterPresent here: negative replies are never suppressed, so there are two of them
+                try:
+                    rep = await tr.read(timeout=5)
+                except Exception as e:  # noqa: BLE001
+                    rep = f"{type(e).__name__}: {e}".encode()
+                if not (len(rep) == 3 and rep[:2] == b"\x7f\x3e"):
+                    out.append((f"C19/real/{scheme}/line-for-an-unanswered-request", f"3e80 then 3e00, both refused: second message read is {rep!r}"))
+                    return
+            elif rep != b"\x7e\x00":
+                out.append((f"C19/real/{scheme}/line-for-an-unanswered-request", f"3e80 then 3e00: first message read is {rep!r}"))
+                return
             # somebody else connects to the virtual ECU and hangs up without a word (a port scan, a health check): this tester's
             # conversation goes on
             try:
@@ -668,4 +688,6 @@ def replay(witness: Any) -> list[tuple[str, str]]:
 
 def shrink(bucket: str, witness: Any, seed: int) -> Any:
     kind = unjson(witness)["kind"]
+    if kind == "real":
+        return None  # the real-socket cases are a handful of fixed scripts: nothing to shrink
     return shrink_bucket(case_s(kinds=(kind,)), lambda c: {b for b, _ in check(c)}, bucket, seed, max_examples=1500)
